@@ -895,3 +895,258 @@ func ruleOP1() Rule {
 			}
 		}}
 }
+
+// ---------------------------------------------------------------------------
+// QU3b / SP3: which expansions are "$@", and which parameters are always set.
+
+func ruleQU3b() Rule {
+	return Rule{ID: "QU3b", Kind: "must", Floor: 2,
+		Doc: "(QU3b) only the plain form `$@` / `${@}` generates zero fields inside double-quotes: the helper that decides it (the function consulted in the Quote arm that reads the positional parameters) compares each part's operator with the empty string - a test on anything else (Word being nil) also accepts the length form `${#@}`, which is `0`; (SP3) the special parameters `@` and `*` are set whatever they hold: in expandParam their clauses assign the `set` flag true, they do not derive it from the value (an empty `$*` is not an unset parameter under nounset or for `-`/`+`/`?`/`=`)",
+		Run: func(c *Ctx, rr *core.RuleResult) {
+			args := c.fieldVar("interp", "ExecEnv", "Args")
+			// QU3b: functions of interp that read Args and range over the parts of a word looking at *ast.ParamExp
+			for _, f := range c.funcsOfPkg("interp", false) {
+				if f.Decl == nil || f.Type.Results == nil || len(f.Type.Results.List) != 1 || exprStr(f.Type.Results.List[0].Type) != "bool" {
+					continue
+				}
+				info := f.Info()
+				readsArgs, peObj := false, types.Object(nil)
+				f.OwnNodes(func(n ast.Node) bool {
+					switch x := n.(type) {
+					case *ast.SelectorExpr:
+						if core.FieldOf(info, x) == args {
+							readsArgs = true
+						}
+					case *ast.TypeAssertExpr:
+						if x.Type != nil && exprStr(x.Type) == "*ast.ParamExp" {
+							if as, ok := c.P.Parent(x).(*ast.AssignStmt); ok && len(as.Lhs) >= 1 {
+								if id, ok := as.Lhs[0].(*ast.Ident); ok {
+									peObj = info.Defs[id]
+								}
+							}
+						}
+					}
+					return true
+				})
+				if !readsArgs || peObj == nil {
+					continue
+				}
+				key := f.Name + "|only the plain form"
+				opTested := false
+				f.OwnNodes(func(n ast.Node) bool {
+					switch x := n.(type) {
+					case *ast.BinaryExpr:
+						if x.Op != token.EQL && x.Op != token.NEQ {
+							return true
+						}
+						se, ok := ast.Unparen(x.X).(*ast.SelectorExpr)
+						if !ok || se.Sel.Name != "Op" {
+							return true
+						}
+						if id, ok := ast.Unparen(se.X).(*ast.Ident); ok && info.Uses[id] == peObj {
+							if s, isC := constStr(info, x.Y); isC && s == "" {
+								opTested = true
+							}
+						}
+					case *ast.SwitchStmt:
+						if x.Tag == nil {
+							return true
+						}
+						se, ok := ast.Unparen(x.Tag).(*ast.SelectorExpr)
+						if !ok || se.Sel.Name != "Op" {
+							return true
+						}
+						if id, ok := ast.Unparen(se.X).(*ast.Ident); ok && info.Uses[id] == peObj {
+							// a switch over the operator: the accepting clause may list "" only together with
+							// operators that carry a word (OP1 watches "#")
+							opTested = true
+						}
+					}
+					return true
+				})
+				if opTested {
+					rr.OK(f, key, f.Pos(), "operator-tested", "the part's operator is compared with the empty string")
+				} else {
+					rr.Bad(f, key, f.Pos(), "the helper that decides whether a quoted part is \"$@\" with nothing to expand to never compares the part's operator with \"\": a test on something else (Word == nil) also accepts the length form, so \"${#@}\" without positional parameters yields no field instead of 0")
+				}
+			}
+			// SP3
+			ep := c.mustFn(rr, "interp.(*ExecEnv).expandParam")
+			get := c.fn("interp.(*ExecEnv).Get")
+			if ep == nil || get == nil {
+				return
+			}
+			info := ep.Info()
+			var setObj types.Object
+			ep.OwnNodes(func(n ast.Node) bool {
+				as, ok := n.(*ast.AssignStmt)
+				if !ok || len(as.Lhs) != 2 || len(as.Rhs) != 1 {
+					return true
+				}
+				call, ok := ast.Unparen(as.Rhs[0]).(*ast.CallExpr)
+				if !ok {
+					return true
+				}
+				if fo := core.StaticCallee(info, call); fo != nil && c.P.FuncOf(fo) == get {
+					if id, ok := as.Lhs[1].(*ast.Ident); ok {
+						setObj = info.Uses[id]
+						if setObj == nil {
+							setObj = info.Defs[id]
+						}
+					}
+				}
+				return true
+			})
+			if setObj == nil {
+				rr.Unk(ep, ep.Name+"|set flag", ep.Pos(), "the flag that receives Get's second result was not found")
+				return
+			}
+			for _, name := range []string{"@", "*"} {
+				key := fmt.Sprintf("%s|$%s is always set", ep.Name, name)
+				var clause *swClause
+				for _, sw := range switches(c.P, ep) {
+					for _, cl := range sw.clauses {
+						if cl.strs[name] && len(cl.strs) == 1 {
+							clause = cl
+						}
+					}
+				}
+				if clause == nil {
+					rr.Bad(ep, key, ep.Pos(), fmt.Sprintf("expandParam has no clause of its own for $%s: it is handled like a named variable, whose `set` comes from Get - for a special parameter Get derives it from the value being non-empty, so an empty $%s counts as unset", name, name))
+					continue
+				}
+				ok := false
+				for _, st := range clause.cc.Body {
+					if as, isAs := st.(*ast.AssignStmt); isAs && len(as.Lhs) == 1 && len(as.Rhs) == 1 {
+						if id, isID := as.Lhs[0].(*ast.Ident); isID && info.Uses[id] == setObj && exprStr(as.Rhs[0]) == "true" {
+							ok = true
+						}
+					}
+				}
+				if ok {
+					rr.OK(ep, key, clause.cc.Pos(), "set-true", "the clause sets the flag unconditionally")
+				} else {
+					rr.Bad(ep, key, clause.cc.Pos(), fmt.Sprintf("the clause for $%s does not set the `set` flag to true unconditionally", name))
+				}
+			}
+		}}
+}
+
+// ---------------------------------------------------------------------------
+// QU4: escaping of quoted text in patterns is one backslash per special character.
+
+func ruleQU4() Rule {
+	return Rule{ID: "QU4", Kind: "must", Floor: 1,
+		Doc: "field.pattern() turns the quoted segments of a field into pattern text in which every character matches itself: in the branch for a quoted segment a backslash is written only immediately before a character copied from the segment (the special character it escapes). A backslash written for any other reason - to 'protect' what the output ends with - re-pairs the backslashes already written and leaves the next special character unescaped (`\\\\\\*` becomes `\\\\\\\\*`, a wildcard)",
+		Run: func(c *Ctx, rr *core.RuleResult) {
+			f := c.mustFn(rr, "interp.(*field).pattern")
+			quoteF := c.fieldVar("interp", "field", "quote")
+			if f == nil {
+				return
+			}
+			info := f.Info()
+			isBackslash := func(e ast.Expr) bool {
+				if v, ok := constInt(info, e); ok && v == '\\' {
+					return true
+				}
+				s, ok := constStr(info, e)
+				return ok && s == `\`
+			}
+			write := func(st ast.Stmt) (*ast.CallExpr, bool) {
+				es, ok := st.(*ast.ExprStmt)
+				if !ok {
+					return nil, false
+				}
+				call, ok := es.X.(*ast.CallExpr)
+				if !ok || len(call.Args) != 1 {
+					return nil, false
+				}
+				se, ok := call.Fun.(*ast.SelectorExpr)
+				if !ok || !strings.HasPrefix(se.Sel.Name, "Write") {
+					return nil, false
+				}
+				return call, true
+			}
+			n, bad := 0, token.NoPos
+			f.OwnNodes(func(x ast.Node) bool {
+				ifs, ok := x.(*ast.IfStmt)
+				if !ok {
+					return true
+				}
+				quotedBranch := false
+				ast.Inspect(ifs.Cond, func(y ast.Node) bool {
+					if se, ok := y.(*ast.SelectorExpr); ok && core.FieldOf(info, se) == quoteF {
+						quotedBranch = true
+					}
+					// whatever the flag slice is called: an element of a []bool field of the field value
+					if ix, ok := y.(*ast.IndexExpr); ok {
+						if v := core.FieldOf(info, ix.X); v != nil {
+							if sl, isSl := v.Type().Underlying().(*types.Slice); isSl {
+								if b, isB := sl.Elem().Underlying().(*types.Basic); isB && b.Kind() == types.Bool {
+									quotedBranch = true
+								}
+							}
+						}
+					}
+					return true
+				})
+				if !quotedBranch {
+					return true
+				}
+				// the branch itself and the helpers of the package it hands the segment to
+				roots := []ast.Node{ifs.Body}
+				ast.Inspect(ifs.Body, func(y ast.Node) bool {
+					if call, ok := y.(*ast.CallExpr); ok {
+						if fo := core.StaticCallee(info, call); fo != nil {
+							if h := c.P.FuncOf(fo); h != nil && h.Pkg == f.Pkg && h.Body != nil && h.Obj != nil && !h.Obj.Exported() && h != f {
+								roots = append(roots, h.Body)
+							}
+						}
+					}
+					return true
+				})
+				for _, root := range roots {
+					ast.Inspect(root, func(y ast.Node) bool {
+						var list []ast.Stmt
+						switch b := y.(type) {
+						case *ast.BlockStmt:
+							list = b.List
+						case *ast.CaseClause:
+							list = b.Body
+						default:
+							return true
+						}
+						for i, st := range list {
+							call, ok := write(st)
+							if !ok || !isBackslash(call.Args[0]) {
+								continue
+							}
+							n++
+							okNext := false
+							if i+1 < len(list) {
+								if nx, ok := write(list[i+1]); ok {
+									if _, isConst := info.Types[nx.Args[0]]; isConst && info.Types[nx.Args[0]].Value == nil {
+										okNext = true
+									}
+								}
+							}
+							if !okNext {
+								bad = call.Pos()
+							}
+						}
+						return true
+					})
+				}
+				return true
+			})
+			key := f.Name + "|one backslash per escaped character"
+			switch {
+			case n == 0:
+				rr.Unk(f, key, f.Pos(), "no backslash is written in the branch for quoted segments: idiom not recognised")
+			case bad == token.NoPos:
+				rr.OK(f, key, f.Pos(), "paired", fmt.Sprintf("%d backslash write(s), each directly followed by the character it escapes", n))
+			default:
+				rr.Bad(f, key, bad, "a backslash is written in the branch for quoted text that is not directly followed by the character it escapes: it re-pairs the backslashes written before it, and the next special character of the quoted text is left unescaped")
+			}
+		}}
+}
